@@ -63,7 +63,7 @@ func isOption(s string, mode Mode, windows bool) ([]optionPair, bool) {
 	}
 	if len(match) > 0 {
 		// check long option
-		if match[1] == "--" || match[1] == "/" {
+		if match[1] == "--" || match[1] == "/" || strings.HasPrefix(s, "--") {
 			opt := optionPair{}
 			opt.Option = match[2]
 			var args string
